@@ -1,4 +1,5 @@
 import Tw.Model.ServerBrowse
+import Tw.Model.ServerBrowseEnc
 import Tw.Drv.Util
 
 /-! Line protocol for domain `browse` (implementation side: `harness/src/d_browse.rs`).
@@ -11,6 +12,12 @@ import Tw.Drv.Util
   also evaluates the C18 merge oracle; the model treats both alike.)
 * `hs <k> <prefix> <suffix> <alphabet> <maxlen>`: the `parse()` of kind `k` on `prefix ++ w ++ suffix`
   for every string `w` over the alphabet up to the length, results hashed.
+* `e <k> <n> <info>`: the structured info (same text form as in the outputs) is encoded with the
+  reference encoder (`n` = offset, or packet number for `m`), tested with the executable
+  representability checker, parsed; output: bytes, checker verdict, parse result, and whether the
+  result is what the round-trip theorem predicts.
+* `hp <prefix> <suffix> <alphabet> <maxlen>`: whole datagrams `prefix ++ w ++ suffix` through
+  `parse_response` (+ the kind's `parse()`), results hashed.
 * `hc <k> <prefix> <suffix> <v1,v2,…>`: the count fields jointly swept over the values (every tuple).
 * `mh|mfh <n> <k:hex>×n <maxlen>`: every step sequence over the part indices of length 1..maxlen, in
   lexicographic order per length, each output folded into FNV-1a. -/
@@ -191,8 +198,95 @@ def countHash (k : InfoKind) (pre suf : List UInt8) (vals : List Int) : Option U
       h := fnvByte h 10
   return some h
 
+/-! `e`: encode a structured info with the reference encoder, check representability, parse -/
+
+def parseOpt {α : Type} (f : String → Option α) (s : String) : Option (Option α) :=
+  if s == "~" then some none else (f s).map some
+
+def versionOfName (s : String) : Option Version :=
+  match s with
+  | "V5" => some .v5 | "V6" => some .v6 | "V6Ddper" => some .v6Ddper | "V664" => some .v664
+  | "V6Ex" => some .v6Ex | "V7" => some .v7 | _ => none
+
+def parseClientStr (s : String) : Option ClientInfo :=
+  match s.splitOn "/" with
+  | [n, c, co, sc, fl] => do
+    let n ← parseHex n
+    let c ← parseHex c
+    let co ← parseInt co
+    let sc ← parseInt sc
+    let fl ← parseInt fl
+    pure { name := n, clan := c, country := co, score := sc, flags := fl }
+  | _ => none
+
+def parseInfoStr (s : String) : Option ServerInfo :=
+  match s.splitOn "|" with
+  | [ver, tok, version, name, host, map, crc, size, gt, flags, prog, skill, np, mp, nc, mc, cl] => do
+    let ver ← versionOfName ver
+    let tok ← parseInt tok
+    let version ← parseHex version
+    let name ← parseHex name
+    let host ← parseOpt parseHex host
+    let map ← parseHex map
+    let crc ← parseOpt parseNat crc
+    let size ← parseOpt parseNat size
+    let gt ← parseHex gt
+    let flags ← parseInt flags
+    let prog ← parseOpt parseInt prog
+    let skill ← parseOpt parseInt skill
+    let np ← parseInt np
+    let mp ← parseInt mp
+    let nc ← parseInt nc
+    let mc ← parseInt mc
+    let cl ← if cl == "-" then some [] else (cl.splitOn ";").mapM parseClientStr
+    pure { infoVersion := ver, token := tok, version := version, name := name, hostname := host, map := map,
+           mapCrc := crc, mapSize := size, gameType := gt, flags := flags, progression := prog, skillLevel := skill,
+           numPlayers := np, maxPlayers := mp, numClients := nc, maxClients := mc, clients := cl }
+  | _ => none
+
+def encodeLine (k : InfoKind) (n : Nat) (i : ServerInfo) : String :=
+  if k == .info6ExMore then
+    let bytes := encMore i.token n i.clients
+    let rep := representableMoreB i.token n i.clients
+    let res := (infoResult k bytes).getD "panic"
+    let rt :=
+      if rep then
+        (if parsePartial k bytes = .ok (some { info := { infoVersion := .v6Ex, token := i.token, clients := i.clients }, received := 1 <<< n })
+          then "ok" else "BAD")
+      else "-"
+    s!"{toHex bytes} {if rep then 1 else 0} {res} {rt}"
+  else
+    let bytes := encInfo k i n
+    let rep := representableB k i n
+    let res := (infoResult k bytes).getD "panic"
+    let rt :=
+      if rep then
+        (if parsePartial k bytes = .ok (some { info := i, received := maskFor k n i.clients.length }) then "ok" else "BAD")
+      else "-"
+    s!"{toHex bytes} {if rep then 1 else 0} {res} {rt}"
+
+/-- `hp`: like `hs`, but whole datagrams through `parse_response` (the text of a `p` request) -/
+def sweepParse (pre suf alphabet : List UInt8) (maxLen : Nat) : UInt64 := Id.run do
+  let mut h := fnvOffset
+  let a := alphabet.toArray
+  let n := a.size
+  for len in [0:maxLen + 1] do
+    for c in [0:n ^ len] do
+      let w := (List.range len).map fun j => a.getD ((c / n ^ (len - 1 - j)) % n) 0
+      h := fnvString h (parseLine (pre ++ w ++ suf))
+      h := fnvByte h 10
+  return h
+
 def handle (toks : List String) : String :=
   match toks with
+  | ["e", k, n, info] =>
+    match kindOfChar k, parseNat n, parseInfoStr info with
+    | some k, some n, some i => encodeLine k n i
+    | _, _, _ => "bad-op"
+  | ["hp", pre, suf, alpha, ml] =>
+    match parseHex pre, parseHex suf, parseHex alpha, parseNat ml with
+    | some pre, some suf, some alpha, some ml => s!"h {sweepParse pre suf alpha ml}"
+    | _, _, _, _ => "bad-op"
   | ["hc", k, pre, suf, vals] =>
     match kindOfChar k, parseHex pre, parseHex suf, (vals.splitOn ",").mapM parseInt with
     | some k, some pre, some suf, some vals =>
